@@ -420,6 +420,17 @@ theorem rrPc_cases (s : St) (t : Nat) (d : Option Msg) :
   · right; simp only [true_and]; split <;> (try split) <;> simp
   · left; simp
 
+theorem readReturned_k_other (s : St) (t t' : Nat) (d : Option Msg) (h : t' ≠ t) :
+    (readReturned s t d).1.k t' = s.k t' := by
+  unfold readReturned; cases d <;> simp [upd, h]
+
+theorem rrPc_inRM (s : St) (t : Nat) (d : Option Msg) : inRM (rrPc s t d) = false := by
+  rcases rrPc_cases s t d with ⟨m, -, h⟩ | ⟨-, h | h | h⟩ <;> simp [h, inRM]
+
+theorem rrPc_RLoc (s : St) (t : Nat) (d : Option Msg) (n A D : Nat) (nxt : Option Msg) :
+    RLoc n A D nxt (rrPc s t d) := by
+  rcases rrPc_cases s t d with ⟨m, -, h⟩ | ⟨-, h | h | h⟩ <;> simp [h, RLoc]
+
 theorem entryFn_inCS (rm : RMode) : inCS (entryFn rm) = true := by cases rm <;> rfl
 theorem entryFn_inRM (rm : RMode) : inRM (entryFn rm) = false := by cases rm <;> rfl
 theorem entryFn_WLoc (rm : RMode) (n A D o c : Nat) (sl : Option Msg) (m : Msg) :
